@@ -192,7 +192,7 @@ def wcasFn (k : String) (exp cas : Nat) (val : Option String) (o : WOpts) : TxnF
         else .inl { err := .casMismatch, actual := some r.cas }
     | some (r', nid') =>
       .inr (docs.put k r', nid',
-        some { key := k, value := val, isDeletion := val.isNone, isJSON := isJSON, xattrs := r'.xattrs, cas := newCas, exp := exp, rev := rev },
+        some { key := k, value := r'.value, isDeletion := val.isNone, isJSON := isJSON, xattrs := r'.xattrs, cas := newCas, exp := exp, rev := rev },
         { cas := newCas })
 
 def opWriteCas (s : State) (c k : String) (exp cas : Nat) (val : Option String) (o : WOpts) : State × Out :=
